@@ -48,8 +48,18 @@ def match_D16(v, trace):
     return bool(trades) and all(t in tainted for t in trades)
 
 
+def match_D9(v, trace):
+    """line market, result exactly equal to the struck line: back and lay both lose"""
+    if v["prop"] != "C08" or v["name"] != "SideSymmetry":
+        return False
+    d = v["detail"]
+    # detail = <<back order, lay order, profit back, profit lay, line result, line>>
+    return isinstance(d, list) and len(d) >= 6 and d[4] == d[5] and d[4] > 0 and d[2] == d[3] and d[2] < 0
+
+
 MATCHERS = {
     "D16": match_D16,
+    "D9": match_D9,
 }
 
 
